@@ -11,7 +11,36 @@ EXTENDS Signer, Json
 VARIABLE hist
 svars == <<vars, hist>>
 
-SInit == Init /\ hist = <<>>
+\* the instance is up (what the real New() does with the start-up input is recorded by the driver: if it
+\* refuses to start, the request of the history is not made)
+SInit == /\ fork \in ForkEpochs /\ boot \in Boots /\ svc = "up" /\ InitRequests
+         /\ hist = <<>>
+
+\* the start-up input as the driver presents it, and the specifications' table of domain types: the values
+\* of the keys the node lists AND the oracle's types come from here - the driver holds no table of its own
+ResetJson == [ev |-> "Reset", boot |-> boot, table |-> DomainTypeBytes]
+
+\* the requests of the start-up families (Scen_Signer_boot*.cfg: Calls <- BootCalls): every operation, on a
+\* single account of each kind, without failure (and the registration that carries nothing to sign)
+BootCalls == CallsWith(EnvBatches(1), {"none", "input"})
+\* quick: the complete map on both chains; every single key broken in either way (also the phase0 ones and
+\* SLOTS_PER_EPOCH); the maps of nodes of earlier forks (no sync committee types; none of the later types; no
+\* builder / blob types) - the builder type and SLOTS_PER_EPOCH missing also on the chain with 8 slots per epoch;
+\* the failed lookup
+BootsQuick ==
+    {CompleteBoot(8), CompleteBoot(32), SpecErrBoot(32)} \cup BootsOneBroken(SpecKeys, 32)
+      \cup {BootOf([k \in LaterKeys |-> "absent"], 32),
+            BootOf([k \in {"DOMAIN_SYNC_COMMITTEE", "DOMAIN_SYNC_COMMITTEE_SELECTION_PROOF",
+                           "DOMAIN_CONTRIBUTION_AND_PROOF"} |-> "absent"], 32),
+            BootOf([k \in {"DOMAIN_APPLICATION_BUILDER", "DOMAIN_BLOB_SIDECAR"} |-> "absent"], 32),
+            BootOf([k \in {"DOMAIN_APPLICATION_BUILDER", "DOMAIN_BLOB_SIDECAR"} |-> "absent"], 8),
+            BootOf([k \in {"DOMAIN_APPLICATION_BUILDER"} |-> "badtype"], 8),
+            BootOf([k \in {"SLOTS_PER_EPOCH"} |-> "badtype"], 8),
+            BootOf([k \in {"SLOTS_PER_EPOCH"} |-> "absent"], 8)}
+\* thorough: every assignment of the three modes to the later keys, every single key broken, the failed
+\* lookup - on both chains
+BootsThorough ==
+    UNION {BootsOver(LaterKeys, KeyModes, n) \cup BootsOneBroken(SpecKeys, n) \cup {SpecErrBoot(n)} : n \in {8, 32}}
 
 CallJson(r, c) ==
                [ev      |-> "Call",
@@ -33,7 +62,7 @@ SNext ==
     /\ hist = <<>>
     /\ \E c \in Calls :
           /\ Call(1, c)
-          /\ hist' = <<[ev |-> "Reset"], CallJson(1, c)>>
+          /\ hist' = <<ResetJson, CallJson(1, c)>>
 
 SSpec == SInit /\ [][SNext]_svars
 
